@@ -17,6 +17,10 @@ var collDuring = vkit.NewCollector("C17", "TestClearDuringChain", "the graphs an
 
 func TestClearDuringChain(t *testing.T) { vkit.Check(t, collDuring, GenDuring, RunDuring) }
 
+var collLong = vkit.NewCollector("C17", "TestLongChain", "one chain of 2-64 raw upcasters t0->t1->...->tL registered oldest-first, newest-first or in a drawn permutation; stored events at level 0, at tL and at up to 3 drawn levels. Oracle: every registration of the acyclic chain is accepted, every event reaches tL and its trail lists every step from its level on (no cap on the length of a chain). Non-trivial = a chain of 9 or more steps.")
+
+func TestLongChain(t *testing.T) { vkit.Check(t, collLong, GenLong, RunLong) }
+
 func TestMain(m *testing.M) { vkit.Main(m) }
 
 func TestRawGraph(t *testing.T)          { vkit.Check(t, collRaw, Gen, Run) }
@@ -25,5 +29,5 @@ func TestConcurrentReplays(t *testing.T) { vkit.Check(t, collConc, GenConc, RunC
 
 func TestReplay(t *testing.T) {
 	r := vkit.NeedReplay(t)
-	_ = vkit.ReplayCase(t, r, collFuzz, Run) || vkit.ReplayCase(t, r, collRaw, Run) || vkit.ReplayCase(t, r, collTyped, RunTyped) || vkit.ReplayCase(t, r, collConc, RunConc) || vkit.ReplayCase(t, r, collDuring, RunDuring)
+	_ = vkit.ReplayCase(t, r, collFuzz, Run) || vkit.ReplayCase(t, r, collRaw, Run) || vkit.ReplayCase(t, r, collTyped, RunTyped) || vkit.ReplayCase(t, r, collConc, RunConc) || vkit.ReplayCase(t, r, collDuring, RunDuring) || vkit.ReplayCase(t, r, collLong, RunLong)
 }
